@@ -205,6 +205,27 @@ class C08(Spec):
                 ops.append(op)
             ops += ['clear', 'live']
             cases.append(Case('rnd%d' % ci, hdr, ops, 'random'))
+        # fill-and-drain histories on 10-40 distinct keys: the erase fix-up cases that only occur above the
+        # bottom level of the tree (double black moved up, black sibling with a red near and a black far child)
+        # need about ten entries and particular erase orders
+        for ci in range(300 if tier == 'quick' else 4000):
+            nk = rnd.choice([10, 12, 16, 24, 40])
+            keys = list(range(nk))
+            rnd.shuffle(keys)
+            hdr = ['cmpmode %d' % rnd.randrange(3), 'ptrrep %d' % rnd.randrange(2)]
+            ops = ['insert %d %d' % (k, i % 250) for i, k in enumerate(keys)]
+            order = list(range(nk))
+            rnd.shuffle(order)
+            for j, k in enumerate(order):
+                ops.append(rnd.choice(['erase %d', 'erase %d', 'erase_iter %d', 'erase_noiter %d']) % k)
+                if j % 5 == 4:
+                    ops.append('find %d' % rnd.randrange(nk))
+                if rnd.random() < 0.15:
+                    back = order[rnd.randrange(j + 1)]
+                    ops.append('insert %d %d' % (back, (j + 7) % 250))
+                    order.append(back)
+            ops += ['size', 'clear', 'live']
+            cases.append(Case('drain%d' % ci, hdr, ops, 'random'))
         return cases
 
 
